@@ -25,6 +25,7 @@ def run_case(ctx, idx, rng, tier):
     mon = ProtocolMonitor(ctx, c03=True, c10=False)
     r = prog.Runner(ctx, dev, reg, [mon])
     g = gen.ProgGen(rng, dev, reg, r.chspecs, weights=WEIGHTS, big=rng.random() < 0.2)
+    g.motifs["drift"] = 0.3
     for _ in range(rng.randint(8, 40)):
         op = g.next_op()
         ev = r.step(op)
